@@ -148,11 +148,12 @@ func runEcal(c *core.Ctx, stream string, idx int, s *script, noise, noiseSeed ui
 		default:
 		}
 		if i > 5 {
+			seq0 := tr.Now()
 			if st, view := sched.PoolStuck(tr, pool); st {
-				gs := sched.GoStates()[gid]
+				dump := sched.Dump()
+				gs := dump[gid].State
 				lastView = fmt.Sprintf("live=%v last=%v pushed=%d signalled=%d tracelen=%d wc=%d evalstate=%s", view.LiveWorkers, view.LastPoint, view.Pushed, view.Signalled, view.TraceLen, pool.WorkerCount(), gs)
-				if (gs == "semacquire" || gs == "sync.WaitGroup.Wait") && view.Pushed > 0 &&
-					sched.GoStackHas(gid, "sync.(*WaitGroup).Wait", "AddEventAndWait") {
+				if view.Pushed > 0 && sched.BlockedIn(dump, gid, sched.WaitGroupStates, "sync.(*WaitGroup).Wait", "AddEventAndWait") && tr.Now() == seq0 {
 					select {
 					case er = <-done:
 						finished = true
